@@ -124,7 +124,7 @@ let all_tags = [| "bool"; "err"; "panic"; "idx"; "unit"; "counts"; "row"; "wrow"
                   "nb"; "nbo"; "nbi"; "ed"; "edo"; "edi"; "gn"; "ge"; "el"; "nbu"; "exto"; "exti"; "elimit"; "oob";
                   "walk"; "econn"; "missed"; "vac"; "free"; "seq"; "events"; "cycle"; "comp"; "cidx"; "scores"; "path"; "dist"; "pred"; "fw"; "fwp"; "mse"; "msn"; "bytes"; "dec"; "text"; "wire"; "robust"; "order"; "pos"; "atpos"; "selfloop"; "range"; "pairs"; "flow"; "dom"; "vhdr"; "nrefs"; "nbin"; "adj" |]
 let view_ops = [| "node"; "out"; "in"; "neighbors_edges_mismatch"; "erefs"; "nmap"; "_6"; "_7"; "_8"; "reset";
-                  "dfs"; "dfs_moveto"; "dfs_reset"; "dfspost"; "bfs"; "topo"; "topo_with_initials"; "dfsvisit"; "dfspost_moveto"; "_19";
+                  "dfs"; "dfs_moveto"; "dfs_reset"; "dfspost"; "bfs"; "topo"; "topo_with_initials"; "dfsvisit"; "dfspost_moveto"; "dfspost_reset";
                   "connected_components"; "is_cyclic_undirected"; "toposort"; "toposort2"; "is_cyclic_directed"; "has_path";
                   "kosaraju"; "tarjan"; "bipartite"; "condensation";
                   "dijkstra"; "astar"; "ksp"; "bellman_ford"; "find_negative_cycle"; "spfa"; "floyd_warshall"; "floyd_warshall_path"; "_38"; "_39"; "kruskal"; "prim"; "_42"; "_43"; "_44"; "_45"; "_46"; "_47"; "_48"; "_49"; "greedy_matching"; "maximum_matching"; "ford_fulkerson"; "simple_fast"; "articulation_points" |]
